@@ -199,6 +199,11 @@ define_ops! {
     ni_div_mod_floor = |a: U, b: U| pair(|| num_integer::Integer::div_mod_floor(&a, &b), || Uint::div_rem(a, b));
     ni_extended_gcd = |a: U, b: U| pair(|| { let e = num_integer::Integer::extended_gcd(&a, &b); (e.gcd, e.x, e.y) }, || { let (g, x, y, _) = Uint::gcd_extended(a, b); (g, x, y) });
     ni_inc_dec = |a: U| pair(|| { let (mut x, mut y) = (a, a); num_integer::Integer::inc(&mut x); num_integer::Integer::dec(&mut y); (x, y) }, || { let one = if B == 0 { Uint::<B, L>::ZERO } else { Uint::<B, L>::from(1u64) }; (Uint::wrapping_add(a, one), Uint::wrapping_sub(a, one)) });
+    // provided methods of num_integer::Integer that ruint does not override
+    x_ni_gcd_lcm = |a: U, b: U| pair(|| num_integer::Integer::gcd_lcm(&a, &b), || Uint::lcm(a, b).map(|l| (Uint::gcd(a, b), l)));
+    ni_divides = |a: U, b: U| pair(|| { #[allow(deprecated)] let r = num_integer::Integer::divides(&a, &b); r }, || if Uint::is_zero(&b) { Uint::is_zero(&a) } else { Uint::is_zero(&Uint::wrapping_rem(a, b)) });
+    x_ni_next_multiple_of = |a: U, b: U| pair(|| num_integer::Integer::next_multiple_of(&a, &b), || Uint::checked_next_multiple_of(a, b));
+    ni_prev_multiple_of = |a: U, b: U| pair(|| num_integer::Integer::prev_multiple_of(&a, &b), || Uint::wrapping_sub(a, Uint::wrapping_rem(a, b)));
     // ---- subtle
     ct_cmp = |a: U, b: U| pair(|| (ch(a.ct_eq(&b)), ch(a.ct_ne(&b)), ch(a.ct_gt(&b)), ch(a.ct_lt(&b))), || (a == b, a != b, a > b, a < b));
     ct_select = |a: U, b: U, c: BO| pair(|| { let x = Uint::conditional_select(&a, &b, Choice::from(c as u8)); let mut y = a; y.conditional_assign(&b, Choice::from(c as u8)); let (mut p, mut q) = (a, b); Uint::conditional_swap(&mut p, &mut q, Choice::from(c as u8)); (x, y, p, q) }, || if c { (b, b, b, a) } else { (a, a, a, b) });
@@ -247,6 +252,7 @@ const BIN: &[Op] = &[
     Op::nt_checked_add, Op::nt_checked_sub, Op::nt_checked_mul, Op::nt_checked_div, Op::nt_checked_rem, Op::nt_checked_div_euclid, Op::nt_checked_rem_euclid,
     Op::nt_div_euclid, Op::nt_rem_euclid, Op::nt_saturating, Op::nt_saturating_add, Op::nt_saturating_sub, Op::nt_saturating_mul, Op::nt_wrapping_add,
     Op::nt_wrapping_sub, Op::nt_wrapping_mul, Op::nt_overflowing_add, Op::nt_overflowing_sub, Op::nt_overflowing_mul, Op::ni_div_floor, Op::ni_mod_floor,
+    Op::x_ni_gcd_lcm, Op::ni_divides, Op::x_ni_next_multiple_of, Op::ni_prev_multiple_of,
     Op::bits_eq_hash, Op::ni_gcd, Op::x_ni_lcm, Op::ni_is_multiple_of, Op::ni_div_rem, Op::ni_div_ceil, Op::ni_div_mod_floor, Op::ni_extended_gcd, Op::ct_cmp,
 ];
 const BIN_SHAPED: &[Op] = &[Op::op_add, Op::op_sub, Op::op_mul, Op::op_div, Op::op_rem, Op::op_and, Op::op_or, Op::op_xor, Op::bits_and, Op::bits_or, Op::bits_xor];
@@ -314,7 +320,7 @@ fn c20(r: &Runner) {
         // exact multiples (and their neighbours) of ordinary one-limb divisors, with zero limbs in every position
         let em = exact_multiples(bits, ORDINARY_DIVISORS);
         if !em.is_empty() {
-            const DIVLIKE: &[Op] = &[Op::ni_is_multiple_of, Op::ni_div_rem, Op::ni_div_ceil, Op::ni_div_mod_floor, Op::ni_div_floor, Op::ni_mod_floor, Op::ni_gcd, Op::x_ni_lcm, Op::nt_checked_div, Op::nt_checked_rem, Op::nt_div_euclid, Op::nt_rem_euclid];
+            const DIVLIKE: &[Op] = &[Op::ni_is_multiple_of, Op::ni_div_rem, Op::ni_div_ceil, Op::ni_div_mod_floor, Op::ni_div_floor, Op::ni_mod_floor, Op::ni_gcd, Op::x_ni_lcm, Op::nt_checked_div, Op::nt_checked_rem, Op::nt_div_euclid, Op::nt_rem_euclid, Op::x_ni_gcd_lcm, Op::ni_divides, Op::x_ni_next_multiple_of, Op::ni_prev_multiple_of];
             r.universe(&format!("exact multiples n = [solved, {{0,1,g1,g2}}..] of {} ordinary one-limb divisors, +-1", ORDINARY_DIVISORS.len()), bits, em.len(), |i, l| {
                 let (n, d) = (vu(&em[i].0), vu(&em[i].1));
                 l.states(1);
